@@ -265,6 +265,13 @@ def ob_notify_once(vc):
     w = EWorld(vc)
     events = [vc.int("event", 0, 0x7FFF)]
     n_tasks = len(w.loop.tasks)
+    started = []
+    if vc.native:
+
+        async def single(endpoint, events=None, label=None):
+            started.append((endpoint, list(events)))
+
+        vc.stub(w.group, "_notify_single", single)
     heap = vc.snapshot(group=w.group, svc=w.svc)
     vc.body(S.SimpleEventgroup.notify_once)(w.group, events)
     if not w.group.has_clients.is_set():
@@ -274,7 +281,14 @@ def ob_notify_once(vc):
         vc.check_eq(len(w.sent), 0, "notify_once.no_subscribers_nothing_sent")
         return
     vc.check_eq(len(w.loop.tasks), n_tasks + 1, "notify_once.one_round_task")
-    if len(w.loop.tasks) != n_tasks + 1 or vc.native:
+    if len(w.loop.tasks) != n_tasks + 1:
+        return
+    if vc.native:
+        # a replay runs the round's task: every subscriber gets the requested events
+        members = set(w.group.subscribed_endpoints)
+        vc.drive(w.loop.tasks[n_tasks].coro, [])
+        vc.check_eq(sorted([repr(e) for e, _ in started]), sorted([repr(e) for e in members]), "notify_once.round_task_notifies_all")
+        vc.check(all(ev == list(events) for _, ev in started), "notify_once.round_with_the_requested_events")
         return
     info = vc.coro_info(w.loop.tasks[n_tasks].coro)
     vc.check_eq(info[0], "someip.service.SimpleEventgroup._notify_all", "notify_once.round_task_notifies_all")
@@ -389,6 +403,10 @@ def ob_client_subscribed(vc):
 def ob_client_unsubscribed(vc):
     w = EWorld(vc)
     w.eps = [gen_endpoint(vc, "ep0")]
+    if vc.native:
+        # a generated endpoint is hardly ever a member by chance: make it one
+        w.group.subscribed_endpoints.add(w.eps[0])
+        w.group.has_clients.set()
     vc.assume(w.eps[0] in w.group.subscribed_endpoints)
     n_before = len(w.group.subscribed_endpoints)
     sub = SD.EventgroupSubscription(service_id=w.svc.service_id, instance_id=w.svc.instance_id, major_version=w.svc.version_major, id=w.group.id, counter=0, ttl=3, endpoints=frozenset([w.eps[0]]))
